@@ -445,6 +445,29 @@ fn verif_cex_encoder_lag_is_bounded() {
             drain_all(&mut e.consumer(), &mut sink);
         }
     }
+    // Borrowed input only: the arena then holds nothing but chunk headers, so the slice that carries the pending
+    // header starts at that header and the lag is the byte-level one: at most ONE maximal chunk and its header
+    // (plus a held-back FE).  Two pending headers (e.g. a header parked until the next chunk closes) show here.
+    let tight = 64008 + 2 + 16;
+    let data: Vec<u8> = (0..400_000usize).map(|i| (i % 251) as u8).collect();
+    for piece_len in [4096usize, 8192, 64008, 70_000] {
+        let mut e = Encoder::new();
+        for (idx, piece) in data.chunks(piece_len).enumerate() {
+            e.encode(piece);
+            let c = e.consumer();
+            let total = c.total_size();
+            let stable: usize = c.stable_prefix().iter().map(|s| s.len()).sum();
+            if total - stable > tight {
+                report("encoder-lag-more-than-one-chunk", &[], &format!("borrowed pieces of {} bytes, after call {}", piece_len, idx),
+                       &format!("{}", total - stable), &format!("<= {}", tight));
+            }
+            drop(c);
+            if idx % 3 == 0 {
+                let mut sink = Vec::new();
+                drain_all(&mut e.consumer(), &mut sink);
+            }
+        }
+    }
 }
 
 #[test]
